@@ -1,9 +1,9 @@
 SPEC_PART = dict(
     props_file="C11_cpc",
     legs=[dict(family="cpc", focus="codec", oracles=["prop_ok"], profiles=["debug", "release"], n_quick=None, n_thorough=None,
-               mask=[0, 1, 2, 3, 4, 5, 6, 7, 8, 18]),
+               mask=[0, 1, 2, 3, 4, 5, 6, 7, 8, 18], panic_is_violation=True),
           dict(family="cpc", focus="union", oracles=["union_ok"], profiles=["debug"], n_quick=20, n_thorough=150,
-               mask=[10, 11, 12, 13, 14, 15, 16, 20, 21, 22, 23])],
+               mask=[10, 11, 12, 13, 14, 15, 16, 20, 21, 22, 23], panic_is_violation=True)],
     trusted=["cpc: only the symbol-level coders are modelled and proved (Model/CpcCodec.v over the translated tables); the framing "
              "into u32 words, the buffer sizes (safe_length_*), the hybrid merge, the pinned 8-column shift and the order in which "
              "PairTable::unwrapping_get_items yields its items are tied by the correspondence run only",
